@@ -115,6 +115,7 @@ class Agent:
         self.nosuch = cfg.get("nosuch", "nosuchinstance")
         self.stamp = cfg.get("stamp", False)
         self.communities = [c.encode() if isinstance(c, str) else c for c in cfg.get("communities", ["public"])]
+        self.bulk_budget = cfg.get("bulk_budget", 3000)
         # v3
         self.engine_id = bytes.fromhex(cfg.get("engine_id", "80001f8880aabbccdd"))
         self.boots = cfg.get("boots", 1)
@@ -239,6 +240,17 @@ class Agent:
                 rep = nxt
                 if all_end and self.cut_after_end:
                     break
+            # RFC 3416 4.2.3: a GetBulk response that would exceed the maximum message size is
+            # generated with fewer repetitions (the client's buffer at the pinned commit: 4080 octets)
+            if self.bulk_budget:
+                total, kept = 0, []
+                for o, v in out:
+                    n = len(snmp.varbind_node(o, v).encode())
+                    if kept and total + n > self.bulk_budget:
+                        break
+                    total += n
+                    kept.append((o, v))
+                out = kept
             return 0, 0, out
         return None
 
